@@ -222,7 +222,28 @@ def clause3_no_release(ctx, P, cg):
         ctx.ob("C11.3 R-EFFECT", g, "transmit-has-no-release", not hit and not errcb,
                "the transmit path of %s can reach %s: a failed delivery would close/free a connection from inside another "
                "peer's request" % (g.srcname, hit + errcb) if (hit or errcb) else "transmit path cannot release anything")
-    ctx.floor("C11.3 R-EFFECT", 2)
+    # the verdict the reply handler hands back to the REPLYING peer's transport must not depend on what happened while
+    # talking to the requester (a negative verdict closes the replying peer)
+    h = P.fn("router.c:handle_routing_response")
+    impl = send_impls(P, cg)
+    bad = None
+    for v in Q.path_views(ctx, P, h):
+        o = v.ret_operand()
+        if o is None or P.const_int(o) is not None:
+            continue
+        lv, _ = Q.leaves(P, h, o, through_loads=False)
+        for l in lv:
+            if l[0] == "call":
+                g = [x for x in P.by_src.get(l[1], [])]
+                if any(cg.reach(x.name) & impl for x in g):
+                    bad = (v, l[1])
+            if l[0] == "icall":
+                bad = (v, "indirect call")
+    ctx.ob("C11.3 R-EFFECT", h, "verdict-independent-of-requester", bad is None,
+           "handle_routing_response returns the result of %s to the replying peer's transport: when the requester cannot be written "
+           "to, the peer that merely answered is disconnected (and every other request in flight to it is lost)" % (bad[1] if bad else ""),
+           witness=bad[0].witness() if bad else None)
+    ctx.floor("C11.3 R-EFFECT", 3)
 
 
 def run(ctx):
